@@ -8,7 +8,7 @@ import (
 	"os"
 	"path/filepath"
 	"strings"
-	"sync/atomic"
+	"sync"
 	"time"
 
 	"k8s.io/client-go/kubernetes"
@@ -39,10 +39,18 @@ func runPopulation(run *evid.Run, p *popSpec, base string) error {
 	defer os.RemoveAll(dir)
 	m := newMon(p, run)
 
+	if p.PortDirGC {
+		// production wiring (gc_dirs default): the port state dir itself is the last gc dir
+		p.GCDirs = append(p.GCDirs, dirSpec{Rel: "@portdir", Exists: true})
+	}
 	abs := func(l []dirSpec) (paths []string, last int) {
 		last = -1
 		for i, d := range l {
-			paths = append(paths, filepath.Join(dir, d.Rel))
+			if d.Rel == "@portdir" {
+				paths = append(paths, portStateDir)
+			} else {
+				paths = append(paths, filepath.Join(dir, d.Rel))
+			}
 			if d.Exists {
 				last = i
 			}
@@ -87,23 +95,39 @@ func runPopulation(run *evid.Run, p *popSpec, base string) error {
 		if err != nil {
 			return fmt.Errorf("galaxy.VerifNew: %v", err)
 		}
-		// containers marked IptFail: every iptables operation fails while their clean-up runs (callbacks are
-		// serial: only the gc-dir loop calls them)
-		var failNow int32
+		// iptables faults while a container's clean-up runs. Callbacks are serial (only the gc-dir loop calls them).
+		// The hook runs under the fake's kernel lock: it must not take the monitor's lock (polls hold it while
+		// dumping the nat table), hence its own small state.
+		var fmu sync.Mutex
+		var cur *ctrState
+		var curInjected int
+		ops := map[string]int{}
 		ipt.FailHook = func(op string) error {
-			if atomic.LoadInt32(&failNow) == 1 {
-				return errors.New("iptables: Permission denied (you must be root)")
+			fmu.Lock()
+			defer fmu.Unlock()
+			if cur == nil || cur.spec.Ipt == nil {
+				return nil
+			}
+			f := cur.spec.Ipt
+			ops[cur.spec.ID]++
+			n := ops[cur.spec.ID]
+			if f.Kind == "permanent" || (f.Kind == "first-k" && n <= f.K) || (f.Kind == "nth-once" && n == f.N) {
+				curInjected++
+				return errors.New(iptErrText[f.Text])
 			}
 			return nil
 		}
 		cb = func(id string) error {
 			_ = m.callback(id)
-			if cs := m.ctr[id]; cs != nil && cs.spec.IptFail {
-				atomic.StoreInt32(&failNow, 1)
-				defer atomic.StoreInt32(&failNow, 0)
-			}
+			fmu.Lock()
+			cur, curInjected = m.ctr[id], 0
+			fmu.Unlock()
 			err := g.VerifCleanIPtables(id)
-			m.callbackResult(id, err)
+			fmu.Lock()
+			injected := curInjected
+			cur = nil
+			fmu.Unlock()
+			m.callbackResult(id, err, injected)
 			return err
 		}
 		m.natFn = func() string { return ipt.Dump("nat") }
@@ -131,6 +155,10 @@ func runPopulation(run *evid.Run, p *popSpec, base string) error {
 				ports = append(ports, k8s.Port{HostPort: ps.HostPort, ContainerPort: ps.ContainerPort, Protocol: ps.Protocol,
 					PodName: ps.PodName, PodIP: ps.PodIP})
 			}
+			before := map[string]bool{}
+			for _, l := range strings.Split(m.natFn(), "\n") {
+				before[l] = true
+			}
 			if err := pmh.SetupPortMapping(ports); err != nil {
 				return fmt.Errorf("SetupPortMapping on strict fake: %v", err)
 			}
@@ -149,13 +177,19 @@ func runPopulation(run *evid.Run, p *popSpec, base string) error {
 			pf := filepath.Join(portStateDir, c.ID)
 			myPortFiles = append(myPortFiles, pf)
 			track(&tfile{Path: pf, Loop: "gc", Kind: "portfile", ID: c.ID, Container: true})
-			nat := m.natFn()
-			for _, ps := range c.Ports {
-				rule := fmt.Sprintf("%s:%d", ps.PodIP, ps.ContainerPort)
-				if !strings.Contains(nat, rule) {
-					return fmt.Errorf("port mapping %s not visible in the fake nat table after setup", rule)
+			cs := m.ctr[c.ID]
+			cs.portFile = pf
+			// every chain declaration and rule this container's mapping added to the nat table
+			for _, l := range strings.Split(m.natFn(), "\n") {
+				if l == "" || before[l] || strings.HasPrefix(l, ":KUBE-MARK-MASQ") || strings.HasPrefix(l, "-A KUBE-MARK-MASQ") ||
+					strings.HasPrefix(l, "#") {
+					continue
 				}
-				track(&tfile{Path: "nat:" + rule, Loop: "gc", Kind: "portmapping", ID: c.ID, Container: true, rule: rule})
+				cs.natLines = append(cs.natLines, l)
+				track(&tfile{Path: "nat:" + l, Loop: "gc", Kind: "portmapping", ID: c.ID, Container: true, rule: l})
+			}
+			if len(cs.natLines) < 3*len(c.Ports) {
+				return fmt.Errorf("port mapping of %s: only %d new nat lines visible after setup:\n%s", c.ID, len(cs.natLines), m.natFn())
 			}
 			run.Count("portmappings_installed", int64(len(c.Ports)))
 		}
@@ -206,6 +240,7 @@ func runPopulation(run *evid.Run, p *popSpec, base string) error {
 	}
 	track(&tfile{Path: sip, Loop: "ip", Kind: "ipfile", ID: sentIP, Container: true})
 	sgc := filepath.Join(gcPaths[lastGC], sentGC)
+	myPortFiles = append(myPortFiles, filepath.Join(portStateDir, sentGC))
 	if err := mustWrite(sgc, "{}"); err != nil {
 		return err
 	}
